@@ -60,7 +60,8 @@ def register(reg):
             'within_tol': lambda S, a, r: S.opt(r, lambda t: S.le(S.DE(a.text_rgb, t), a.delta_e_threshold)),
         },
         props={'valid': ['C01', 'C04'], 'within_tol': ['C04', 'C03']},
-        loops=[LoopSpec('range(20)', bs_inv, shapes={'best_rgb': OPT_RGB})],
+        loops=[LoopSpec('range(20)', bs_inv, shapes={'best_rgb': OPT_RGB}, pos=0,
+                        roles={'carried': ['low', 'high', 'best_rgb', 'best_delta_e', 'best_contrast', 'best_meets_target']})],
     ))
 
     # ------------------------------------------------------------------ gradient_descent_oklch
@@ -75,7 +76,8 @@ def register(reg):
         props={'valid': ['C01', 'C04'], 'within_tol': ['C04']},
         # the descent loop and its closures are havocked: the postcondition must follow from the guarded tail alone
         loops=[LoopSpec('range(max_iter)', lambda S, a, st, k: S.true,
-                        shapes={'current': 'unk', 'gradient': 'unk', 'next_params': 'unk', 'adaptive_lr': 'unk'})],
+                        shapes={'current': 'unk', 'gradient': 'unk', 'next_params': 'unk', 'adaptive_lr': 'unk'}, pos=0,
+                        roles={'carried': ['current'], 'local': ['gradient', 'adaptive_lr', 'next_params']})],
     ))
 
     # ------------------------------------------------------------------ generate_accessible_color
@@ -103,7 +105,8 @@ def register(reg):
             'bounded': lambda S, a, r: within(S, a.text_rgb, r, gen_bound(S, a)),
         },
         props={'valid': ['C01', 'C04'], 'no_harm': ['C02'], 'bounded': ['C04']},
-        loops=[LoopSpec('delta_e_sequence', gen_inv, shapes={'best_candidate': OPT_RGB, 'binary_result': OPT_RGB, 'gradient_result': OPT_RGB})],
+        loops=[LoopSpec('delta_e_sequence', gen_inv, shapes={'best_candidate': OPT_RGB, 'binary_result': OPT_RGB, 'gradient_result': OPT_RGB}, pos=0,
+                        roles={'carried': ['best_candidate', 'best_contrast', 'best_delta_e'], 'local': ['binary_result', 'result_contrast', 'result_delta_e', 'gradient_result']})],
     ))
 
     # ------------------------------------------------------------------ strategies
@@ -130,7 +133,7 @@ def register(reg):
         posts={'valid': valid, 'flag_iff': flag_iff, 'no_harm': no_harm,
                'chain_le_3': lambda S, a, r: REACH(S, STEP_BOUND, a.text_rgb, S.item(r, 0))},
         props=dict(base_props, chain_le_3=['C04']),
-        loops=[LoopSpec('range(max_iterations)', rec_inv)],
+        loops=[LoopSpec('range(max_iterations)', rec_inv, pos=0, roles={'carried': ['current_rgb'], 'local': ['current_contrast', 'next_rgb']})],
     ))
 
     def REC(S, a):
@@ -149,7 +152,7 @@ def register(reg):
                'chain_or_15': lambda S, a, r: S.Or(REACH(S, STEP_BOUND, a.text_rgb, S.item(r, 0)), within(S, a.text_rgb, S.item(r, 0), RELAXED_BOUND)),
                'covers_mode1': covers},
         props=dict(base_props, chain_or_15=['C04'], covers_mode1=['C16']),
-        loops=[LoopSpec('range(max_iterations_extended)', relax_inv)],
+        loops=[LoopSpec('range(max_iterations_extended)', relax_inv, pos=0, roles={'carried': ['opt_a_rgb', 'opt_a_success'], 'local': ['next_rgb']})],
     ))
 
     # ------------------------------------------------------------------ check_and_fix_contrast
